@@ -37,4 +37,37 @@ ErrorJudge(e) ==
        (IF e.rc = 0 THEN "InputErrorFails" ELSE IF e.written THEN "FailureWritesNoEnvelope" ELSE "ok")
   ELSE IF e.cause = "usage" THEN (IF e.rc # 2 THEN "UsageErrorExitsWithStatus2" ELSE "ok")
   ELSE "UnknownCause"
+
+\* ---- every sub-command: a request that cannot be served is REPORTED BY THE EXIT STATUS and leaves no output behind.
+\* The contract is the first two clauses; what the shipped code does beyond / short of it is the table of NAMED deviations
+\* (model what the code does): a scenario that takes a deviation is accepted as that deviation and recorded as an observation,
+\* a scenario that deviates WITHOUT being in the table is rejected (ModelDescribesTheCode).
+\*   DevLeavesOutput        a non-zero exit status, but output files (possibly empty) stay behind
+\*   DevAcceptsTheRequest   exit status 0: the request is served although it cannot be meaningful
+Failures == {
+  <<"create", "missing-input">>, <<"create", "unknown-key">>, <<"create", "broken-yaml">>,
+  <<"parse", "missing-input">>, <<"parse", "bad-cbor">>,
+  <<"sign", "missing-input">>, <<"sign", "missing-key">>, <<"sign", "key-type-mismatch">>, <<"sign", "already-signed-error">>,
+  <<"sign-recursive", "missing-configuration">>, <<"sign-recursive", "absent-dependency">>,
+  <<"payload_extract", "missing-input">>, <<"payload_extract", "absent-payload">>,
+  <<"cache_create", "missing-file">>, <<"cache_create", "duplicate-uri">>, <<"cache_create", "malformed-input-argument">>,
+  <<"cache_create", "zero-erase-block">>, <<"cache_create-merge", "duplicate-uri">>,
+  <<"mpi-generate", "area-smaller-than-record">>, <<"mpi-merge", "missing-input">>, <<"mpi-merge", "input-outside-area">>,
+  <<"image-boot", "missing-input">>, <<"image-boot", "envelope-larger-than-slot">>, <<"image-update", "missing-input">>,
+  <<"keys", "unsupported-combination">>, <<"convert", "missing-input">>, <<"convert", "not-a-pem-key">>,
+  <<"encrypt", "missing-firmware">>, <<"encrypt", "missing-key">> }
+Deviation(cmd, cause) ==
+  CASE <<cmd, cause>> \in {<<"create", "unknown-key">>, <<"convert", "not-a-pem-key">>,
+                           <<"payload_extract", "absent-payload">>} -> "DevLeavesOutput"
+    [] <<cmd, cause>> = <<"mpi-generate", "area-smaller-than-record">> -> "DevAcceptsTheRequest"
+    [] OTHER -> "none"
+\* e = [cmd, cause, rc, left (some output file - even an empty one - exists afterwards)]
+FailureJudge(e) ==
+  LET dv == Deviation(e.cmd, e.cause) IN
+  IF <<e.cmd, e.cause>> \notin Failures THEN "UnknownFailureScenario"
+  ELSE IF dv = "DevAcceptsTheRequest" THEN (IF e.rc # 0 THEN "ModelDescribesTheCode" ELSE "ok")
+  ELSE IF e.rc = 0 THEN "FailureIsReportedByTheExitStatus"
+  ELSE IF dv = "DevLeavesOutput" THEN (IF ~e.left THEN "ModelDescribesTheCode" ELSE "ok")
+  ELSE IF e.left THEN "FailureLeavesNoOutput"
+  ELSE "ok"
 =============================================================================
